@@ -606,3 +606,52 @@ def main(ctx):
     # ------------------------------------------------ one Recfile object used for several files (mc/sfreuse.py)
     from mc.sfreuse import reused_recfile_world
     reused_recfile_world(ctx, "one-recfile-object-several-files", depth=ctx.pick(7, 9))
+
+    # ------------------------------------------------ wide tables (more than 32 and more than 64 columns)
+    # column bookkeeping kept in a machine word (a bit mask, a fixed-size array of column numbers) goes wrong beyond
+    # the 32nd / 64th column only: tables of 40 and 70 columns, binary and text, subsets that include late columns
+    def one_wide(case, rec):
+        from esutil import recfile
+        ncol, delim, entry, cols, rows = case
+        key = ("wide", ncol, delim, rec.tmp)
+        if key not in files:
+            dt = [("c%02d" % j, "<i4" if j % 3 else "<f8") for j in range(ncol)]
+            tb = np.zeros(6, dtype=dt)
+            for j in range(ncol):
+                tb["c%02d" % j] = np.arange(6) * 100 + j
+            fnw = os.path.join(rec.tmp, "c02_wide_%d_%s.rec" % (ncol, "b" if delim is None else str(ord(delim))))
+            sfile.write(fnw, tb, delim=delim)
+            files[key] = (fnw, tb)
+        fnw, tb = files[key]
+        names = ["c%02d" % j for j in cols]
+        rsel = None if rows is None else list(rows)
+        try:
+            if entry == "sfile.read":
+                got = sfile.read(fnw, columns=names, rows=rsel)
+            elif entry == "SF[]":
+                with sfile.SFile(fnw) as sf:
+                    got = sf[names][:] if rsel is None else sf[names][rsel]
+            else:
+                with sfile.SFile(fnw) as sf:
+                    hd = sf.get_header()
+                    off = sf._data_start
+                with recfile.Recfile(fnw, mode="r", dtype=tb.dtype, delim=delim, nrows=6, offset=off) as R:
+                    got = R.read(columns=names, rows=rsel)
+        except Exception as e:
+            return rec.fail(case, "%d-column table, columns %r rows %r via %s raised %s: %s" % (ncol, cols, rows, entry, type(e).__name__, str(e)[:150]))
+        ordered = [n for n in tb.dtype.names if n in names]
+        exp = tb if rsel is None else tb[sorted(set(rsel))]
+        if len(names) == 1 and got.dtype.names is None:
+            ok = np.array_equal(np.asarray(got), exp[names[0]])
+        else:
+            ok = got.dtype.names is not None and list(got.dtype.names) == ordered and got.shape == exp.shape and all(np.array_equal(got[n], exp[n]) for n in ordered)
+        if not ok:
+            return rec.fail(case, "%d-column %s table, columns %r rows %r via %s: got fields %r first row %r, expected fields %r first row %r" % (
+                ncol, "binary" if delim is None else "text", cols, rows, entry, got.dtype.names, np.asarray(got).reshape(-1)[:1].tolist(), ordered,
+                [exp[n][0].item() for n in ordered][:6]))
+        rec.ok(case, outcome="wide:%d:%s" % (ncol, entry), nontrivial=True, calls=1)
+
+    wsel = {40: [(35,), (0, 35), (31, 32, 33), tuple(range(30, 40)), (39, 3), (32,), tuple(range(0, 40, 3)), (38, 39, 0, 1)],
+            70: [(65,), (0, 33, 66), (63, 64, 65), tuple(range(60, 70)), (69, 31, 32), tuple(range(0, 70, 7)), (64,)]}
+    wunits = [(nc, dl, en, cs, rs) for nc in (40, 70) for dl in (None, ",", " ") for en in ("sfile.read", "SF[]", "Recfile") for cs in wsel[nc] for rs in (None, (1, 4), (5,))]
+    ctx.lattice("wide-tables", wunits, one_wide, bounds=dict(columns=[40, 70], delims=["binary", ",", "space"], selections={str(k): [list(c) for c in v] for k, v in wsel.items()}))
